@@ -1,7 +1,7 @@
 """C14 — a collider after update_pose behaves like a freshly built one at that pose (structural clauses)."""
 from . import scopes
 from ..core.report import DOMAIN_D
-from ..rules import eager, colliders, unpack
+from ..rules import eager, colliders, unpack, purity, misc2
 from .common import e1
 
 MODS = {"distance3d.colliders", "distance3d.mesh"}
@@ -23,4 +23,7 @@ def run(idx, rep, tier):
     colliders.r_roundtrip(idx, rep)
     colliders.r_querystate(idx, rep)
     eager.r_eager(idx, rep, it, caller_filter=lambda f: f.module.name in MODS, floor=15, unknown_ceiling=2)
+    purity.r_pureargs(idx, rep, ["distance3d.colliders", "distance3d.geometry", "distance3d.mesh", "distance3d.utils"], floor=20)
+    misc2.r_adjacency(idx, rep)
+    misc2.r_dupcond(idx, rep, [m.name for m in idx.lib_modules()], floor=3)
     unpack.r_unpack(idx, rep, floor=2)
